@@ -6,5 +6,5 @@ def build(tier):
     # C05.d the walk does not raise on valid programs: step shards incl. the symbolic command name and every by-name dispatch target
     procs, special = steps.special_names()
     obs += steps.step_obligations('C05.d', ['@other'] + [p for p in procs if p in ('generic_command',)], tier, 0, 0, symargs=False)
-    obs += steps.step_obligations('C05.d', ['function', 'set', 'cpp_member', 'ct_add_test', 'add_test', 'option'], tier, 1, 1, symargs=True)
+    obs += steps.step_obligations('C05.d', ['function', 'set', 'cpp_member', 'ct_add_test', 'add_test', 'option', 'cmake_parse_arguments', 'endfunction', 'cpp_class', 'cpp_end_class', 'macro', 'cpp_attr'], tier, 1, 1, symargs=True)
     return dict(obligations=obs, explanation="x", assumptions=[])
